@@ -7,7 +7,10 @@ Used in two ways by props_c06.py:
 
 A presentation is a dict
   {'S': [state...] | None, 'S0': [...], 'R': [[s, d]...], 'L': [[state, [atom...]]...],
-   'back': [[state, base_number]...], 'containers': 'list' | 'set'}
+   'back': [[state, base_number]...], 'containers': 'list' | 'set' | {spec}}
+(containers may also be a dict {'S': k, 'S0': k, 'R': k, 'edge': 'tuple' | 'list', 'L': 'dict' | 'ordered' | 'default',
+'labels': [k, ...]} with k one of CONTAINER_KINDS - list, set, tuple, frozenset, dict keys view, one-shot iterator, generator,
+deque: each collection handed to Kripke in its own container type, the label collections cycling through 'labels')
 with states encoded for JSON (int | str | {'t': [...]} for tuples | {'o': [label, style]} for a PLAIN OBJECT: an instance of
 the user class Loc below, hashed and compared by identity - one object per (label, style) and presentation, so such a state
 has no value that could be rebuilt from a copy of it; style 'same' gives all of them the same repr).  With containers ==
@@ -73,10 +76,69 @@ def detuple(x):
     return x
 
 
+CONTAINER_KINDS = ['list', 'set', 'tuple', 'frozenset', 'dictkeys', 'iter', 'gen', 'deque']
+
+
+def container(kind, xs):
+    """the collection xs (a list) in the container type `kind`"""
+    import collections
+    if kind == 'list':
+        return list(xs)
+    if kind == 'set':
+        return set(xs)
+    if kind == 'tuple':
+        return tuple(xs)
+    if kind == 'frozenset':
+        return frozenset(xs)
+    if kind == 'dictkeys':
+        return dict.fromkeys(xs).keys()
+    if kind == 'iter':
+        return iter(list(xs))
+    if kind == 'gen':
+        return (x for x in list(xs))
+    if kind == 'deque':
+        return collections.deque(xs)
+    raise ValueError(kind)
+
+
+def build_varied(pres, table, spec):
+    import collections
+    from pyModelChecking import Kripke
+    S = None if pres['S'] is None else container(spec['S'], [dec(s, table) for s in pres['S']])
+    S0 = container(spec['S0'], [dec(s, table) for s in pres['S0']])
+    mk = tuple if spec.get('edge', 'tuple') == 'tuple' or spec['R'] in ('set', 'frozenset', 'dictkeys') else list    # lists are not hashable
+    Rl = container(spec['R'], [mk((dec(a, table), dec(b, table))) for a, b in pres['R']])
+    L = {'dict': dict, 'ordered': collections.OrderedDict, 'default': lambda: collections.defaultdict(list)}[spec.get('L', 'dict')]()
+    kinds = spec.get('labels') or ['list']
+    for i, (s, labs) in enumerate(pres['L']):
+        L[dec(s, table)] = container(kinds[i % len(kinds)], labs)
+    return Kripke(S=S, S0=S0, R=Rl, L=L)
+
+
+def stored_differs(K, pres, table):
+    """None, or what the live object stores differently from the presentation it was built from (states, initial states,
+    transitions, label sets: whatever container type each collection was handed over in)"""
+    given_R = set((dec(a, table), dec(b, table)) for a, b in pres['R'])
+    given_S = set(x for e in given_R for x in e) | (set() if pres['S'] is None else set(dec(s, table) for s in pres['S']))
+    if set(K.states()) != given_S:
+        return 'states'
+    if set(K.S0) != set(dec(s, table) for s in pres['S0']):
+        return 'initial-states'
+    if set(K.transitions()) != given_R:
+        return 'transitions'
+    given_L = {dec(s, table): set(labs) for s, labs in pres['L']}
+    for s in given_S:
+        if K._labels.get(s) != given_L.get(s, set()):
+            return 'labels'
+    return None
+
+
 def build(pres, table=None):
     from pyModelChecking import Kripke
     if table is None:
         table = {}
+    if isinstance(pres.get('containers'), dict):
+        return build_varied(pres, table, pres['containers'])
     as_set = pres.get('containers') == 'set'
     S = None if pres['S'] is None else [dec(s, table) for s in pres['S']]
     S0 = [dec(s, table) for s in pres['S0']]
@@ -91,8 +153,9 @@ def build(pres, table=None):
     return Kripke(S=S, S0=S0, R=Rl, L=L)
 
 
-def observe(pres, queries, X, internals=False):
-    """-> dict of observations of one presentation; queries: [(logic, formula tree)], X: reach start set (encoded states)"""
+def observe(pres, queries, X, internals=False, F=None):
+    """-> dict of observations of one presentation; queries: [(logic, formula tree)], X: reach start set (encoded states);
+    F: fairness constraints (list of lists of encoded states; each query is then modelcheck(K, f, F=[set, ...])) or None"""
     from pyModelChecking.graph import compute_SCCs
     table = {}                                 # the plain-object states of this presentation (shared by all builds below)
     back = {dec(s, table): n for s, n in pres['back']}
@@ -101,6 +164,9 @@ def observe(pres, queries, X, internals=False):
     if r[0] != 'ok':
         return {'build': list(r)}
     K = r[1]
+    diff = call(lambda: stored_differs(K, pres, table))
+    if diff != ('ok', None):
+        return {'build': ['err', 'other:stored-%s-differ-from-the-given-ones' % diff[1]]}
     out['build'] = ['ok']
     out['states_order'] = [back[s] for s in K.states()]
     out['succ_order'] = [[back[s], [back[d] for d in K._next[s]]] for s in K._next]
@@ -111,7 +177,11 @@ def observe(pres, queries, X, internals=False):
         f = detuple(f)
         L = lang_module(logic)
         K2 = build(pres, table)                # a fresh object per query: no interference between queries
-        a = call(lambda: L.modelcheck(K2, to_py(f, L)))
+        if F is None:
+            a = call(lambda: L.modelcheck(K2, to_py(f, L)))
+        else:
+            Fv = [set(dec(x, table) for x in P) for P in F]
+            a = call(lambda: L.modelcheck(K2, to_py(f, L), F=Fv))
         if a[0] == 'ok':
             v = a[1]
             if not isinstance(v, set):
@@ -154,7 +224,7 @@ def observe(pres, queries, X, internals=False):
 
 
 def observe_job(job):
-    return [observe(c['pres'], c['queries'], c['X'], job.get('internals', False)) for c in job['cases']]
+    return [observe(c['pres'], c['queries'], c['X'], job.get('internals', False), F=c.get('F')) for c in job['cases']]
 
 
 if __name__ == '__main__':
